@@ -62,7 +62,7 @@ func (m *kv) UnmarshalJSON(b []byte) error {
 type alertJ struct {
 	L   kv     `json:"l"`
 	A   kv     `json:"a"`
-	End string `json:"end"` // past | none | future
+	End string `json:"end"` // past | none | future | tpast | tfuture (t..: end derived from resolve_timeout)
 }
 
 type dataExp struct {
@@ -106,6 +106,8 @@ type tcase struct {
 	Gl     kv         `json:"gl,omitempty"`
 	Sr     bool       `json:"sr"`
 	Max    int        `json:"max"`
+	Sts    []string   `json:"sts,omitempty"`  // per alert of the batch: status the statement expects
+	Ends   []string   `json:"ends,omitempty"` // per alert: "end" (its end time is shown) | "zero"
 	Td     *dataExp   `json:"td,omitempty"`
 	Wh     *whExp     `json:"wh,omitempty"`
 	W      []int      `json:"w,omitempty"`
@@ -152,6 +154,15 @@ func realAlerts(as []alertJ) []*types.Alert {
 			ra.EndsAt = tPast
 		case "future":
 			ra.EndsAt = tFut
+		case "tpast": // no end from the client: the API set it from resolve_timeout, and it has passed
+			ra.EndsAt = tPast
+			ra.Timeout = true
+		case "tfuture": // .. and it is still ahead
+			ra.EndsAt = tFut
+			ra.Timeout = true
+		case "none":
+		default:
+			panic("harness: unknown end kind " + a.End)
 		}
 		ra.GeneratorURL = "http://gen/x"
 		out = append(out, ra)
@@ -306,9 +317,10 @@ func emptyGap(listed []kv, want, got kv) bool {
 }
 
 type alertView struct {
-	Status      string `json:"status"`
-	Labels      kv     `json:"labels"`
-	Annotations kv     `json:"annotations"`
+	Status      string    `json:"status"`
+	Labels      kv        `json:"labels"`
+	Annotations kv        `json:"annotations"`
+	EndsAt      time.Time `json:"endsAt"`
 }
 
 type dataView struct {
@@ -328,7 +340,7 @@ type dataView struct {
 func viewAlerts(as []template.Alert) []alertView {
 	out := make([]alertView, 0, len(as))
 	for _, a := range as {
-		out = append(out, alertView{Status: a.Status, Labels: kvOf(a.Labels), Annotations: kvOf(a.Annotations)})
+		out = append(out, alertView{Status: a.Status, Labels: kvOf(a.Labels), Annotations: kvOf(a.Annotations), EndsAt: a.EndsAt})
 	}
 	return out
 }
@@ -346,11 +358,11 @@ func viewOfData(d *template.Data) dataView {
 	}
 }
 
-func wantAlert(a alertJ) alertView {
-	st := "firing"
-	if a.End == "past" {
-		st = "resolved"
-	}
+// wantAlert is alert i (1-based) of the batch as the payload must list it: status and shown
+// end come from the TLC output (Delivery!AlertStatus, ExposedEnd).
+func wantAlert(c *tcase, i int) alertView {
+	a := c.Alerts[i-1]
+	st := c.Sts[i-1]
 	l, an := kv{}, kv{}
 	for k, v := range a.L {
 		l[k] = v
@@ -358,15 +370,33 @@ func wantAlert(a alertJ) alertView {
 	for k, v := range a.A {
 		an[k] = v
 	}
-	return alertView{Status: st, Labels: l, Annotations: an}
+	v := alertView{Status: st, Labels: l, Annotations: an}
+	if c.Ends[i-1] == "end" {
+		v.EndsAt = tPast
+	}
+	return v
 }
 
 func pickAlerts(c *tcase, idx []int) []alertView {
 	out := make([]alertView, 0, len(idx))
 	for _, i := range idx {
-		out = append(out, wantAlert(c.Alerts[i-1]))
+		out = append(out, wantAlert(c, i))
 	}
 	return out
+}
+
+// sameEnds: the end time shown per listed alert (judged apart from sameAlerts: what a firing
+// alert shows is not fixed by the statement).
+func sameEnds(a, b []alertView) bool {
+	if len(a) != len(b) {
+		return true // reported by sameAlerts
+	}
+	for i := range a {
+		if !a[i].EndsAt.Equal(b[i].EndsAt) {
+			return false
+		}
+	}
+	return true
 }
 
 func sameAlerts(a, b []alertView) bool {
@@ -412,7 +442,9 @@ func (j *judge) compareData(step int, what string, c *tcase, exp *dataExp, got d
 	}
 	wantList := pickAlerts(c, exp.Idx)
 	if !sameAlerts(wantList, got.Alerts) {
-		j.add(step, "", what+": listed alerts differ from the alerts of the batch (send_resolved / max_alerts applied, order kept)", wantList, got.Alerts)
+		j.add(step, "", what+": listed alerts differ from the alerts of the batch (send_resolved / max_alerts applied, order kept; status of every alert)", wantList, got.Alerts)
+	} else if !sameEnds(wantList, got.Alerts) {
+		j.add(step, classDrift, what+": end time shown for a listed alert (its end when resolved, zero when firing)", wantList, got.Alerts)
 	}
 	if partitions {
 		if w := pickAlerts(c, exp.Firing); !sameAlerts(w, got.Firing) {
@@ -454,8 +486,8 @@ func (r *rig) batch(t *testing.T, j *judge, c *tcase) {
 		gl[model.LabelName(k)] = model.LabelValue(v)
 	}
 	var firing, resolved []uint64
-	for i, a := range c.Alerts {
-		if a.End == "past" {
+	for i, a := range alerts { // as the dedup stage splits the batch
+		if a.Resolved() {
 			resolved = append(resolved, uint64(i+1))
 		} else {
 			firing = append(firing, uint64(i+1))
@@ -690,8 +722,14 @@ func TestReplay(t *testing.T) {
 			res.Cases++
 			switch c.K {
 			case "batch":
-				if c.Td == nil || c.Wh == nil {
+				if c.Td == nil || c.Wh == nil || len(c.Sts) != len(c.Alerts) || len(c.Ends) != len(c.Alerts) {
 					return fmt.Errorf("line %d: batch case without expectation", li)
+				}
+				for _, a := range c.Alerts {
+					if a.End == "tpast" || a.End == "tfuture" {
+						res.Count("batches_with_timed_out_alert", 1)
+						break
+					}
 				}
 				r.batch(t, j, &c)
 				res.Count("batches", 1)
